@@ -13,6 +13,9 @@ L5 the decoder's atom-symbol reader drops no written field: every capture group 
    of the atom built on that path
 L6 a written number is the number read (both atom readers): field == +/- int(digits) on every path where digits are parsed
 L7 a number held is the number written: the atom printer omits a numeric field only where it equals the reader's default
+L8 order of an atom's symbols (necessary for the re-encoding fixed point): the decoder files every ring bond in front of the atom's
+   other bonds (C02/T9) and its writer prints ring digits first, so re-encoding emits ring symbols before branches; the encoder
+   must therefore never emit a ring symbol of an atom after one of that atom's branches
 Not decided: encoder(decoder(encoder(s))) == encoder(s) beyond atom spelling (traversal orders).
 """
 import ast
@@ -176,6 +179,7 @@ def run(ctx, rep):
     symlang.check_reader_keeps_groups(ctx, rep, "L5")
     symlang.check_parsed_numerals(ctx, rep, "L6")
     symlang.check_printer_keeps_fields(ctx, rep, "L7")
+    check_ring_symbols_first(ctx, rep, "L8")
     rep.analysed.update({"abstract_reader_atoms": enc["inner"]["n_atoms"], "decoder_atom_dfa_states": len(dec["dfa"].trans),
                          "encoder_atom_dfa_states": len(enc["dfa"].trans)})
 
@@ -221,3 +225,107 @@ def check_rereadable(ctx, rep, dec):
     rep.ob("L3", ok, a2s.node, a2s, construct="atoms the decoder's writer prints (e.g. %s)" % ", ".join(samples[:6]),
            how="inclusion in the language the SMILES atom reader accepts", nontrivial=True, key="atom/re-readable",
            witness=None if ok else "decoder can write the atom %r, which smiles_to_atom rejects" % w)
+
+
+def check_ring_symbols_first(ctx, rep, RULE="L8"):
+    """L8: in the fragment printer, no ring token is formatted for an atom after a branch of the same atom has been printed.
+    May-dataflow over the structured control flow (sa/flow.py): the state records "a branch was printed since the last atom token";
+    events: A = the atom-token printer is called (a new atom: state reset), B = the recursive call (a branch), R = a ring token
+    is made (its template is formatted here, or the helper that formats it is called)."""
+    from sa.flow import Forward
+    from rules.shared import fragment_printer, token_templates, atom_token_printer
+    _encf, frag = fragment_printer(ctx)
+    atomp = atom_token_printer(ctx)
+    ring_nodes, ring_helpers = set(), set()
+    for owner, node, tmpl, args in token_templates(ctx, frag):
+        if "Ring" in tmpl:
+            if owner is frag or getattr(owner, "outer", None) is frag:
+                ring_nodes.add(id(node))
+            else:
+                ring_helpers.add(owner)
+    if not ring_nodes and not ring_helpers:
+        raise AnalysisError("ring token template not found in the encoder")
+    sites = {id(s_.node): s_ for s_ in ctx.cg.sites(frag)}
+    bad = {}
+    seen = {"A": 0, "B": 0, "R": 0}
+
+    class Order(Forward):
+        def join(self, a, b):
+            return a | b
+
+        def simple(self, st, state):
+            node_ = st.value if hasattr(st, "for_node") else st
+            for x in ast.walk(node_):
+                ev = None
+                if id(x) in ring_nodes:
+                    ev = "R"
+                elif isinstance(x, ast.Call):
+                    s_ = sites.get(id(x))
+                    if s_ is not None:
+                        if frag in s_.callees:
+                            ev = "B"
+                        elif atomp in s_.callees:
+                            ev = "A"
+                        elif any(g in ring_helpers for g in s_.callees):
+                            ev = "R"
+                if ev is None:
+                    continue
+                seen[ev] += 1
+                if ev == "A":
+                    state = frozenset()
+                elif ev == "B":
+                    state = state | {"branch"}
+                elif "branch" in state:
+                    bad[id(x)] = x
+            return state
+    # A pass over bonds that are ordered ring-first -- `sorted(<out-bonds>, key=lambda b: not b.ring_bond)` (stable: False < True) --
+    # whose body is one `if <bond>.ring_bond: ... else: ...` is two passes, the ring bonds and then the others: it is analysed as
+    # the two loops it amounts to, so that a branch printed in it does not flow back to the ring arm
+    from rules.shared import resolve_local
+    import copy
+
+    def ring_first(it):
+        e = it
+        if isinstance(e, ast.Call) and unparse(e.func) == "enumerate" and e.args:
+            e = e.args[0]
+        e = resolve_local(frag, e)
+        if not (isinstance(e, ast.Call) and unparse(e.func) == "sorted" and len(e.args) == 1):
+            return False
+        kw = {k.arg: k.value for k in e.keywords}
+        if set(kw) != {"key"} or not isinstance(kw["key"], ast.Lambda) or len(kw["key"].args.args) != 1:
+            return False
+        par = kw["key"].args.args[0].arg
+        b = kw["key"].body
+        return isinstance(b, ast.UnaryOp) and isinstance(b.op, ast.Not) and isinstance(b.operand, ast.Attribute) and b.operand.attr == "ring_bond" \
+            and isinstance(b.operand.value, ast.Name) and b.operand.value.id == par
+    _stmt = Order.stmt
+
+    def stmt(self, st, state, ctx_):
+        if isinstance(st, ast.For) and not getattr(st, "_split", False) and ring_first(st.iter) and len(st.body) == 1 and isinstance(st.body[0], ast.If) \
+                and isinstance(st.body[0].test, ast.Attribute) and st.body[0].test.attr == "ring_bond" and not st.orelse:
+            tgt = {x.id for x in ast.walk(st.target) if isinstance(x, ast.Name)}
+            tv = st.body[0].test.value
+            if isinstance(tv, ast.Name) and tv.id in tgt:
+                a = ast.copy_location(ast.For(target=st.target, iter=st.iter, body=[ast.copy_location(
+                    ast.If(test=st.body[0].test, body=st.body[0].body, orelse=[]), st.body[0])], orelse=[]), st)
+                b = ast.copy_location(ast.For(target=st.target, iter=st.iter, body=[ast.copy_location(
+                    ast.If(test=ast.UnaryOp(op=ast.Not(), operand=st.body[0].test), body=st.body[0].orelse or [ast.Pass()], orelse=[]), st.body[0])],
+                    orelse=[]), st)
+                a._split = b._split = True
+                state = _stmt(self, a, state, ctx_)
+                return _stmt(self, b, state, ctx_) if state is not None else None
+        return _stmt(self, st, state, ctx_)
+    Order.stmt = stmt
+    Order(frag.node).run(frozenset())
+    if not (seen["A"] and seen["B"] and seen["R"]):
+        rep.note("L8: atom / branch / ring events of the fragment printer not all located (%s): symbol order not decided" % seen)
+        return
+    w = None
+    if bad:
+        x = next(iter(bad.values()))
+        w = "a ring symbol can be emitted for an atom after one of its branches (line %d is reachable after the recursive call, in the " \
+            "same pass over the atom's bonds): encoder('C1CC(F)1') = [C][C][C][Branch1][C][F][Ring1][Ring1], which decodes to C1CC1F, " \
+            "which encodes to [C][C][C][Ring1][Ring1][F]" % x.lineno
+    rep.ob(RULE, not bad, next(iter(bad.values())) if bad else frag.node, frag, construct="order of ring symbols and branches of one atom in the fragment printer",
+           how="may-dataflow: no ring token is made after a branch was printed for the same atom", witness=w, nontrivial=True,
+           key="ring-symbol-after-branch")
